@@ -23,6 +23,7 @@ class G:
         self.r = r
         self.ops = []
         self.nasty = nasty
+        self.single_line = False
 
     def emit(self, op):
         self.ops.append(op)
@@ -36,6 +37,8 @@ class G:
             t = r.choice(NICE_TEXT)
         if t == '' and not allow_empty:
             t = 'n'
+        if self.single_line:
+            t = t.replace('\n', ' ')
         return t
 
     def otext(self, p=0.3):
@@ -48,7 +51,7 @@ class G:
         return r.choice(pool)
 
 
-def gen_database(r, nasty=0.0, size=None, allow_props=None, renderers=(0, 1), db_props=True):
+def gen_database(r, nasty=0.0, size=None, allow_props=None, renderers=(0, 1), db_props=True, benign_sql=False):
     """returns (G, info) where info maps roles to slot numbers"""
     g = G(r, nasty)
     info = {'tables': [], 'columns': {}, 'indexes': {}, 'refs': [], 'enums': [], 'groups': [], 'stickies': [],
@@ -106,13 +109,13 @@ def gen_database(r, nasty=0.0, size=None, allow_props=None, renderers=(0, 1), db
             elif dk == 'bool':
                 d = V('bool', r.random() < 0.5)
             elif dk == 'str':
-                d = V('str', g.text())
+                d = V('str', g.text().replace('\n', ' ') if benign_sql else g.text())
             elif dk == 'strkw':
                 d = V('str', r.choice(['null', 'true', 'False', 'NULL']))
             elif dk == 'empty':
                 d = V('str', '')
             else:
-                x = g.emit(Op(11, r.choice(['now()', 'id * 2', "'a' || b", '(a + b) * (c)', g.text()])))
+                x = g.emit(Op(11, r.choice(['now()', 'id * 2', "'a' || b", '(a + b) * (c)', g.text().replace('\n', ' ') if benign_sql else g.text()])))
                 info['exprs'].append(x)
                 d = V('obj', x)
             pk = (pk_layout == 'single' and i == 0) or (pk_layout == 'composite' and i < 2)
@@ -136,7 +139,7 @@ def gen_database(r, nasty=0.0, size=None, allow_props=None, renderers=(0, 1), db
                 if sk < 0.7:
                     subs.append((1, r.choice(cols)))
                 elif sk < 0.9:
-                    x = g.emit(Op(11, r.choice(['id*2', 'lower(name)', g.text()])))
+                    x = g.emit(Op(11, r.choice(['id*2', 'lower(name)', g.text().replace('\n', ' ') if benign_sql else g.text()])))
                     info['exprs'].append(x)
                     subs.append((2, x))
                 else:
